@@ -13,7 +13,7 @@ import (
 func init() {
 	register(&propDef{
 		ID:          "C10",
-		Explanation: "Decides the error discipline and buffer ownership on every path of generated and runtime code: R1 every statement the generator can emit that assigns the render error from a call (writes, literal writes, nested Render, RenderAttributes/CSS/Script items, expression evaluation) is immediately followed by an emitted `if err != nil { return … }` (all GEM emission paths, incl. the literal-closing template of the range writer); R2 expression evaluations are followed by the handler that wraps the error in templ.Error{FileName, Line from that same expression}; R3 the emitted template body returns ctx.Err() before acquiring the buffer or writing anything; R4 the emitted body releases the buffer only in a defer, only when it acquired it, and adopts the flush error iff no earlier error; R5 in packages templ and templ/runtime every error returned by a write to / render into the writer is propagated to a return on every path (no dropped or overwritten error); R6 pooled buffers are reset (on acquisition or before release) and flushed before being returned to the pool. R8 every runtime function that takes the expression's errors as a variadic ...error parameter hands the whole list to errors.Join or to another such function, and no condition inspects a single element of it (a guard on errs[0] alone drops an error that arrives second, as in `{{ v, errA, errB }}`); R9 the memory of a pooled buffer is not used after the buffer went back to the pool. R10 (= C15.R8) the generator options handed to concurrent workers are not appended to in place on a slice with spare capacity (a worker would otherwise generate a file with another template's file name in its error locations). R11 a parser.Expression literal built by the generator that embeds a user expression's text keeps that expression's Range (the emitted error handler takes Line/Col from it), and the handler emitter reads that Range; R12 no runtime function writes to the buffer's underlying writer itself — only the bufio.Writer does, which is what turns a short write with a nil error into io.ErrShortWrite. NOT decided: the prefix property at each byte offset, behaviour of user writers.",
+		Explanation: "Decides the error discipline and buffer ownership on every path of generated and runtime code: R1 every statement the generator can emit that assigns the render error from a call (writes, literal writes, nested Render, RenderAttributes/CSS/Script items, expression evaluation) is immediately followed by an emitted `if err != nil { return … }` (all GEM emission paths, incl. the literal-closing template of the range writer); R2 expression evaluations are followed by the handler that wraps the error in templ.Error{FileName, Line from that same expression}; R3 the emitted template body returns ctx.Err() before acquiring the buffer or writing anything; R4 the emitted body releases the buffer only in a defer, only when it acquired it, and adopts the flush error iff no earlier error; R5 in packages templ and templ/runtime every error returned by a write to / render into the writer is propagated to a return on every path (no dropped or overwritten error); R6 pooled buffers are reset (on acquisition or before release) and flushed before being returned to the pool. R8 every runtime function that takes the expression's errors as a variadic ...error parameter hands the whole list to errors.Join or to another such function, and no condition inspects a single element of it (a guard on errs[0] alone drops an error that arrives second, as in `{{ v, errA, errB }}`); R9 the memory of a pooled buffer is not used after the buffer went back to the pool. R10 (= C15.R8) the generator options handed to concurrent workers are not appended to in place on a slice with spare capacity (a worker would otherwise generate a file with another template's file name in its error locations). R11 a parser.Expression literal built by the generator that embeds a user expression's text keeps that expression's Range (the emitted error handler takes Line/Col from it), and the handler emitter reads that Range; R12 no runtime function writes to the buffer's underlying writer itself — only the bufio.Writer does, which is what turns a short write with a nil error into io.ErrShortWrite. NOT decided: the prefix property at each byte offset, behaviour of user writers. R13 element-write loops are left early only with the write error; R14 a style-value handler never returns (not handled, error value); R15 every path of (*Buffer).Flush calls the bufio writer's Flush (which reports the remembered write error).",
 		Assumptions: []string{"bufio.Writer reports a short write as an error; a returned error aborts the caller's rendering (checked for generated callers by R1)"},
 		Trusted:     []string{"go/types", "go/parser", "x/tools go/packages, go/cfg"},
 		Run:         runC10,
@@ -36,6 +36,9 @@ func runC10(c *Ctx) {
 	sharedSliceAppends(c, "C10.R10")
 	errorLineFromUserExpression(c, "C10.R11")
 	bufferOnlyBufioWritesUnderlying(c, "C10.R12")
+	writeLoopsLeaveOnlyOnError(c, "C10.R13")
+	unhandledCarriesNoError(c, "C10.R14")
+	flushAlwaysReachesBufio(c, "C10.R15")
 	if c.thorough() {
 		generatedErrHandling(c, "C10.R7")
 	}
@@ -714,6 +717,29 @@ func variadicErrors(c *Ctx, rule string) {
 							}
 						}
 					}
+				case *ast.KeyValueExpr:
+					// … or the list is kept in a private field of a value whose method joins it: T{errs: errs} … errors.Join(r.errs...)
+					if id, ok := ast.Unparen(x.Value).(*ast.Ident); ok && info.ObjectOf(id) == errsObj {
+						if k, ok := x.Key.(*ast.Ident); ok {
+							if f, isField := info.Uses[k].(*types.Var); isField && f.IsField() && !f.Exported() {
+								for _, g := range allFuncDecls(p) {
+									if g.Body == nil {
+										continue
+									}
+									ast.Inspect(g.Body, func(y ast.Node) bool {
+										if jc, ok := y.(*ast.CallExpr); ok && jc.Ellipsis.IsValid() && len(jc.Args) > 0 {
+											if jf := calleeOf(info, jc); jf != nil && fullName(jf) == "errors.Join" {
+												if se, ok := ast.Unparen(jc.Args[len(jc.Args)-1]).(*ast.SelectorExpr); ok && info.Uses[se.Sel] == types.Object(f) {
+													nspread++
+												}
+											}
+										}
+										return true
+									})
+								}
+							}
+						}
+					}
 				case *ast.IfStmt:
 					ast.Inspect(x.Cond, func(y ast.Node) bool {
 						if ix, ok := y.(*ast.IndexExpr); ok {
@@ -905,4 +931,234 @@ func errReachesReturnOnPaths(info *types.Info, pkg *types.Package, body *ast.Blo
 		}
 	}
 	return true, n
+}
+
+// writeLoopsLeaveOnlyOnError: C10.R13 (also run as C01.R8) — a loop that writes the elements of a sequence one after the
+// other (`for _, s := range ss { io.WriteString(w, s) }`) may be left early only with the error of a write: a return
+// inside the loop on a path where that error is nil (for example "the writer accepted 0 bytes", which is what writing an
+// empty string reports) silently drops the remaining elements — the closing quote of an attribute, the end tag.
+func writeLoopsLeaveOnlyOnError(c *Ctx, rule string) {
+	n := 0
+	for _, rel := range []string{".", "runtime"} {
+		p := c.pkg(rel)
+		if p == nil {
+			continue
+		}
+		info := p.TypesInfo
+		for _, fd := range allFuncDecls(p) {
+			if fd.Body == nil {
+				continue
+			}
+			ord := 0
+			ast.Inspect(fd.Body, func(x ast.Node) bool {
+				rs, ok := x.(*ast.RangeStmt)
+				if !ok || rs.Value == nil {
+					return true
+				}
+				vid, ok := rs.Value.(*ast.Ident)
+				if !ok || vid.Name == "_" {
+					return true
+				}
+				vobj := info.ObjectOf(vid)
+				// the loop writes its element: io.WriteString(w, s) / w.Write([]byte(s)) / w.WriteString(s)
+				var write *ast.CallExpr
+				ast.Inspect(rs.Body, func(y ast.Node) bool {
+					call, ok := y.(*ast.CallExpr)
+					if !ok || len(call.Args) == 0 {
+						return true
+					}
+					name := ""
+					if fn := calleeOf(info, call); fn != nil {
+						name = fn.Name()
+					}
+					if name != "WriteString" && name != "Write" {
+						return true
+					}
+					last := ast.Unparen(call.Args[len(call.Args)-1])
+					if conv, isConv := last.(*ast.CallExpr); isConv && len(conv.Args) == 1 {
+						last = ast.Unparen(conv.Args[0])
+					}
+					if id, ok := last.(*ast.Ident); ok && info.ObjectOf(id) == vobj {
+						write = call
+					}
+					return true
+				})
+				if write == nil {
+					return true
+				}
+				ord++
+				n++
+				key := fmt.Sprintf("%s|write-loop#%d|left-only-with-the-write-error", funcKey(p, fd), ord)
+				den := &denum{info: info, pkg: p.Types, inits: map[types.Object]ast.Expr{}, limit: 5000, loopBody: true, opaqueLoops: true}
+				den.finish(den.run(rs.Body.List, []dstate{{env: map[types.Object]ast.Expr{}}}))
+				if den.undecided != "" {
+					c.undec(rule, key, c.pos(rs.Pos()), fd.Name.Name+": the write loop contains "+den.undecided)
+					return true
+				}
+				bad := ""
+				for _, pth := range den.paths {
+					if pth.Ret == nil && pth.Exit != "break" {
+						continue
+					}
+					withErr := false
+					for _, pc := range pth.Conds {
+						be, ok := ast.Unparen(pc.Expr).(*ast.BinaryExpr)
+						if !ok || types.ExprString(be.Y) != "nil" {
+							continue
+						}
+						if t := info.TypeOf(be.X); t == nil || t.String() != "error" {
+							continue
+						}
+						if pc.Val == (be.Op == token.NEQ) {
+							withErr = true
+						}
+					}
+					if !withErr {
+						var took []string
+						for _, pc := range pth.Conds {
+							took = append(took, fmt.Sprintf("%s=%v", types.ExprString(pc.Expr), pc.Val))
+						}
+						bad = "a path leaves the loop with [" + strings.Join(took, ", ") + "]"
+					}
+				}
+				c.check(bad == "", rule, key, c.pos(rs.Pos()), "every early exit of the loop is on a path that took the write error as non-nil",
+					fmt.Sprintf("%s: %s — without an error: the remaining elements are silently not written (an empty string is a write of 0 bytes: `alt=\"` then loses its closing quote and the next attribute is read as part of the value)", fd.Name.Name, bad))
+				return true
+			})
+		}
+	}
+	c.count("element_write_loops", n)
+	c.floor(rule, 1)
+}
+
+// unhandledCarriesNoError: C10.R14 — the style-attribute value handlers return (handled bool, err error) and their
+// caller looks at err only when handled is true (`if handled, err := h(v); handled { return err }`). So a handler may
+// not return false together with an error: the error would be dropped, the fallback text written and Render would
+// report success.
+func unhandledCarriesNoError(c *Ctx, rule string) {
+	p := c.pkg("runtime")
+	info := p.TypesInfo
+	n := 0
+	for _, fd := range allFuncDecls(p) {
+		if fd.Body == nil || fd.Type.Results == nil {
+			continue
+		}
+		var rts []types.Type
+		for _, r := range fd.Type.Results.List {
+			k := len(r.Names)
+			if k == 0 {
+				k = 1
+			}
+			for i := 0; i < k; i++ {
+				rts = append(rts, info.TypeOf(r.Type))
+			}
+		}
+		if len(rts) != 2 || rts[0] == nil || rts[1] == nil || rts[0].String() != "bool" || rts[1].String() != "error" {
+			continue
+		}
+		// only where some caller reads the error under the flag
+		guarded := false
+		for _, g := range allFuncDecls(p) {
+			ast.Inspect(g.Body, func(x ast.Node) bool {
+				is, ok := x.(*ast.IfStmt)
+				if !ok || is.Init == nil {
+					return true
+				}
+				as, ok := is.Init.(*ast.AssignStmt)
+				if !ok || len(as.Lhs) != 2 || len(as.Rhs) != 1 {
+					return true
+				}
+				call, ok := as.Rhs[0].(*ast.CallExpr)
+				if !ok || types.Object(calleeOf(info, call)) != info.Defs[fd.Name] {
+					return true
+				}
+				if types.ExprString(is.Cond) == types.ExprString(as.Lhs[0]) {
+					guarded = true
+				}
+				return true
+			})
+		}
+		if !guarded {
+			continue
+		}
+		ord := 0
+		ast.Inspect(fd.Body, func(x ast.Node) bool {
+			if _, isLit := x.(*ast.FuncLit); isLit {
+				return false
+			}
+			ret, ok := x.(*ast.ReturnStmt)
+			if !ok || len(ret.Results) != 2 {
+				return true
+			}
+			tv, ok := info.Types[ret.Results[0]]
+			if !ok || tv.Value == nil || tv.Value.String() != "false" {
+				return true
+			}
+			ord++
+			n++
+			// an error the handler makes up to describe a value it does not support (a sentinel, fmt.Errorf) is not the
+			// failure of an expression: the caller goes on to the unsupported-value text, as for any other unsupported
+			// value. What must not be lost is an error VALUE that came back from evaluating something.
+			if id, isID := ast.Unparen(ret.Results[1]).(*ast.Ident); !isID || id.Name == "nil" {
+				c.ok(rule, fmt.Sprintf("%s|return-false#%d|no-error", funcKey(p, fd), ord), c.pos(ret.Pos()), "`not handled` is returned with nil or with a description of the unsupported value")
+				return true
+			} else if v, isVar := info.ObjectOf(id).(*types.Var); !isVar || v.Parent() == p.Types.Scope() {
+				c.ok(rule, fmt.Sprintf("%s|return-false#%d|no-error", funcKey(p, fd), ord), c.pos(ret.Pos()), "`not handled` is returned with a package-level description of the unsupported value")
+				return true
+			}
+			c.check(types.ExprString(ret.Results[1]) == "nil", rule, fmt.Sprintf("%s|return-false#%d|no-error", funcKey(p, fd), ord), c.pos(ret.Pos()), "`not handled` is returned with a nil error",
+				fmt.Sprintf("%s returns (false, %s): its caller reads the error only when the value was handled, so this error is dropped — the unsupported-value text is written and Render returns nil although a style function failed", fd.Name.Name, types.ExprString(ret.Results[1])))
+			return true
+		})
+	}
+	c.count("unhandled_returns", n)
+	c.floor(rule, 2)
+}
+
+// flushAlwaysReachesBufio: C10.R15 — a bufio.Writer remembers the first write error and reports it from Flush, also
+// when nothing is buffered any more. ReleaseBuffer relies on that: the final (*Buffer).Flush is where a failed write of
+// a large chunk (written through, not buffered) surfaces. So every path of (*Buffer).Flush calls the bufio writer's
+// Flush: an early `nothing buffered, return nil` loses the error and Render reports success for a truncated document.
+func flushAlwaysReachesBufio(c *Ctx, rule string) {
+	p := c.pkg("runtime")
+	info := p.TypesInfo
+	fd := findFunc(p, "Buffer", "Flush")
+	if fd == nil {
+		c.viol(rule, "anchor-lost:runtime.Buffer.Flush", "", "runtime.(*Buffer).Flush (exported) not found")
+		return
+	}
+	key := funcKey(p, fd)
+	den := &denum{info: info, pkg: p.Types, inits: map[types.Object]ast.Expr{}, limit: 5000}
+	den.finish(den.run(fd.Body.List, []dstate{{env: map[types.Object]ast.Expr{}}}))
+	if den.undecided != "" {
+		c.undec(rule, key+"|always-flushes-bufio", c.pos(fd.Pos()), "Buffer.Flush contains "+den.undecided)
+		return
+	}
+	bad := ""
+	for _, pth := range den.paths {
+		flushed := false
+		var nodes []ast.Node
+		for _, st := range pth.Trace {
+			nodes = append(nodes, st)
+		}
+		for _, nd := range nodes {
+			ast.Inspect(nd, func(x ast.Node) bool {
+				if call, ok := x.(*ast.CallExpr); ok {
+					if fn := calleeOf(info, call); fn != nil && fullName(fn) == "bufio.(Writer).Flush" {
+						flushed = true
+					}
+				}
+				return true
+			})
+		}
+		if !flushed {
+			where := "the end of the function"
+			if pth.Ret != nil {
+				where = c.pos(pth.Ret.Pos())
+			}
+			bad = "the path that returns at " + where + " does not call the bufio writer's Flush"
+		}
+	}
+	c.check(bad == "" && len(den.paths) > 0, rule, key+"|always-flushes-bufio", c.pos(fd.Pos()), fmt.Sprintf("%d paths, each through bufio.(*Writer).Flush", len(den.paths)),
+		"(*Buffer).Flush: "+bad+": the write error the bufio writer remembered is never reported, so a render whose last large write failed returns nil")
 }
